@@ -331,7 +331,7 @@ def gen_c05(r):
         axis = r.choice([-1, -1, 1, NONE])
         keep = 1 if axis != NONE and r.random() < 0.25 else 0
     if name[1] in ("prod", "multiply"):              # products are promoted to 64 bit: keep them inside TLC's integers
-        arr[1] = [[(max(-3, min(3, v)) if not isinstance(v, list) else [max(-3, min(3, v[0])), v[1]]) for v in row] for row in arr[1]]
+        arr[1] = [[(max(-2, min(2, v)) if not isinstance(v, list) else [max(-2, min(2, v[0])), 1]) for v in row] for row in arr[1]]      # |product of <= 28 cells| < 2**31, integral floats
     return ["reduce", name, arr, axis, keep], opts_for(r, "reduce"), False
 
 
